@@ -3,6 +3,7 @@ package main
 import (
 	"fmt"
 	"math"
+	"strings"
 
 	"gonum.org/v1/gonum/blas"
 	"gonum.org/v1/gonum/internal/verif/vlib"
@@ -105,6 +106,11 @@ func genDgehrd(g *vlib.G) {
 					plan = append(plan, cfg{n, ilo, ihi, p, fams})
 				}
 			}
+		}
+	}
+	for _, exp := range ladder(g, -1000, -500, 500, 1000) {
+		for _, n := range []int{3, 5} {
+			plan = append(plan, cfg{n, 0, n - 1, profiles[0], []family{scaledFam(nsFamilies[0], exp), scaledFam(nsFamilies[6], exp)}})
 		}
 	}
 	stock := [][3]int{{1, 0, 0}, {2, 0, 1}, {5, 0, 4}, {5, 1, 3}, {33, 0, 32}, {40, 2, 37}}
@@ -402,10 +408,21 @@ func genDhseqr(g *vlib.G) {
 	for _, n := range stock {
 		plan = append(plan, cfg{n, stockProf, []family{nsFamilies[0], nsFamilies[4], nsFamilies[6], nsFamilies[10], nsFamilies[11]}})
 	}
+	// magnitude ladder: Dhseqr/Dlahqr/Dlanv2 get the matrix as it is (Dgeev rescales, they do not)
+	ladFams := []family{nsFamilies[0], nsFamilies[5], nsFamilies[6], nsFamilies[4], nsFamilies[10], nsFamilies[9]}
+	for _, exp := range ladder(g, -800, -500, -200, 200, 500, 800) {
+		for _, n := range p3(g, []int{3, 4}, []int{2, 3, 4, 6}, []int{2, 3, 4, 5, 6, 8, 17}) {
+			fs := make([]family, len(ladFams))
+			for i, f := range ladFams {
+				fs[i] = scaledFam(f, exp)
+			}
+			plan = append(plan, cfg{n, profiles[0], fs})
+		}
+	}
 	for _, c := range plan {
 		for _, f := range c.fams {
 			for _, bal := range []lapack.BalanceJob{lapack.BalanceNone, lapack.Permute} {
-				if bal == lapack.Permute && f.name != "reducible" && f.name != "jordeps" && f.name != "int" {
+				if bal == lapack.Permute && f.name != "reducible" && f.name != "jordeps" && f.name != "int" && !strings.HasPrefix(f.name, "int@") {
 					continue
 				}
 				for _, ldx := range []int{0, 2} {
